@@ -57,3 +57,16 @@ def cell_simple(b, **kw):
         ok = ok and cn.value == n and isinstance(cn.value, int) and not isinstance(cn.value, bool)
     ok = ok and Cell(Decimal("1.50")).value == Decimal("1.50") and Cell(2.5).value == Decimal("2.5") and Cell(None).value is None
     return (not ok), "simple values"
+
+
+def meta_overwrite(first, kind="date", **kw):
+    v = VALUES[kind]
+    doc = Document("text")
+    meta = doc.get_part("meta")
+    meta.set_user_defined_metadata("k", (True, 7, "txt", timedelta(seconds=1))[first])
+    meta.set_user_defined_metadata("k", v)
+    try:
+        got = meta.get_user_defined_metadata()
+    except Exception as e:  # noqa: BLE001
+        return True, f"reading back raised {e!r}"
+    return _norm(got.get("k")) != _norm(v) or len(got) != 1, f"entry overwritten with {v!r} reads back as {got!r}"
